@@ -105,18 +105,18 @@ def h1(ctx):
 def _header_var(ctx, fi, cfg, du, header: str) -> Tuple[List[str], object]:
     """Names of the local variables holding request.headers.get(<header>) (one per read site)."""
     names, first = [], None
-    for n in cfg.stmt_nodes():
-        a = n.ast
-        if n.kind == "stmt" and isinstance(a, ast.Assign) and len(a.targets) == 1 and isinstance(a.targets[0], ast.Name):
-            v = a.value
-            if isinstance(v, ast.Call) and isinstance(v.func, ast.Attribute) and v.func.attr == "get" and v.args:
-                recv = origins(du, n, v.func.value)
-                if not (recv and all(o.kind == "expr" and not o.path and (dotted(o.leaf) or "").endswith(".headers") for o in recv)):
-                    continue
-                if ctx.P.try_fold(fi.module, v.args[0]) == header:
-                    if a.targets[0].id not in names:
-                        names.append(a.targets[0].id)
-                    first = first or n
+    for n in cfg.nodes:
+        for d in du.defs_at.get(n.id, []):
+            v = d.value
+            if d.kind != "assign" or d.index or not (isinstance(v, ast.Call) and isinstance(v.func, ast.Attribute) and v.func.attr == "get" and v.args):
+                continue
+            recv = origins(du, n, v.func.value)
+            if not (recv and all(o.kind == "expr" and not o.path and (dotted(o.leaf) or "").endswith(".headers") for o in recv)):
+                continue
+            if ctx.P.try_fold(fi.module, v.args[0]) == header:
+                if d.name not in names:
+                    names.append(d.name)
+                first = first or n
     return (names or None), first
 
 
@@ -340,11 +340,15 @@ def p2(ctx):
         fi = ctx.own_method(cq, nm)
         param = "replace_etag" if nm == "set_body" else "etag"
         found = False
-        for n in walk_local(fi.node):
-            if isinstance(n, ast.Call):
-                passes = [k for k in n.keywords if k.arg == kw and param in {x.id for x in ast.walk(k.value) if isinstance(x, ast.Name)}]
+        cfgw = ctx.cfg(fi)
+        duw = DefUse(cfgw)
+        for nd in cfgw.stmt_nodes():
+            for n in nd.calls():
                 names = [dotted(a) for a in n.args] + [(dotted(n.func) or "")]
-                if passes and any((nm2 or "").endswith(callee) for nm2 in names):
+                if not any((nm2 or "").endswith(callee) for nm2 in names):
+                    continue
+                # the keyword argument is derived from the parameter (directly or through a local / a conversion)
+                if any(k.arg == kw and param in depends_on(duw, nd, k.value) for k in n.keywords):
                     found = True
         obs.append(ctx.ob(found, fi.qualname, fi.where, "%s forwards %s to store.%s" % (nm, param, callee),
                           "the etag reaches the store call", "%s no longer forwards `%s` to store.%s(%s=...)" % (fi.short, param, callee, kw)))
@@ -379,7 +383,7 @@ def p3(ctx):
                 t = tn.ast
                 diff = "t" if isinstance(t.ops[0], ast.NotEq) else "f"
                 # the raise is only reachable through the 'different' edge of this comparison
-                if r.id in cfg.reachable([cfg.entry], block_edges=[(tn, m, l) for m, l in tn.succ if l == diff]):
+                if r.id in cfg.reachable([cfg.entry], block_edges=cfg.test_edges(tn, diff)):
                     continue
                 for side in (t.left, t.comparators[0]):
                     if p_re in depends_on(du, tn, side):
